@@ -92,6 +92,38 @@ def sweep(chk, case, ks, sigs):
 
 
 # ----------------------------------------------------------------------------- real processes, real signals
+def interrupt_while_loading(chk):
+    """"at any moment" includes the moment the COND files are being evaluated: the interrupt arrives while a COND file, or
+    a file it includes, is executing (the file sends the signal to its own process -- deterministic).  Conductor must
+    exit non-zero REPORTING THE ABORT, and must not start any task.  (D32: inside an included file the abort was caught
+    by `except Exception` and reported as a parse error of that file.)"""
+    for where in ("cond-file", "included-file"):
+        for signame in ("SIGINT", "SIGTERM"):
+            poke = "import os, signal\nos.kill(os.getpid(), signal.%s)\nX = 1\n" % signame
+            files = {"COND": ("include('inc.cond')\n" if where == "included-file" else poke) + 'run_command(name="t", run="touch $COND_OUT/ran")\n'}
+            if where == "included-file":
+                files["inc.cond"] = poke
+            root = implrun.make_project(files)
+            res = implrun.run_cond(["run", "//:t"], root, timeout=30)
+            chk.coverage["evaluations"] += 1
+            chk.count("interrupt while loading", "%s/%s" % (where, signame))
+            text = implrun.strip_ansi(res.out + res.err)
+            ran = os.path.exists(os.path.join(root, "cond-out", "t.task", "ran"))
+            problems = []
+            if res.code == 0:
+                problems.append("cond run exited 0")
+            if "aborted" not in text or "Traceback" in text:
+                problems.append("the abort is not reported: %r" % text[-250:])
+            if ran:
+                problems.append("the task was executed")
+            for msg in problems:
+                chk.violation("impl-violation", "%s delivered while %s is being evaluated: %s" % (signame, "the COND file" if where == "cond-file" else "an included file", msg),
+                              {"input": {"part": "interrupt-while-loading", "files": files, "argv": ["run", "//:t"]}, "impl_observation": {"exit": res.code, "output": text[-600:]},
+                               "oracle_verdict": msg}, match_key={"point": "loading:" + where}, size=1)
+            if not problems:
+                chk.coverage["traces_validated_against_impl"] = chk.coverage.get("traces_validated_against_impl", 0) + 1
+
+
 def real_interrupts(chk, n):
     """real `cond run` processes with sleeping children, interrupted by a real signal.  Shapes: (0) three parallel
     experiments in flight; (1) a chain -- the signal arrives while the SECOND task runs, i.e. after an earlier task
@@ -249,6 +281,7 @@ def run(tier, seed, replay=None):
                             "layer; quick: a stride plus random sample of k, thorough: every k; plus the end of Popen() (known finding D7') and real interrupted `cond run -j3` "
                             "processes with sleeping children; distinct_nontrivial = distinct (file, function, line) program points at which a signal was injected" % len(cases))
     real_interrupts(chk, 3 if tier == "quick" else 18)
+    interrupt_while_loading(chk)
     if tier == "thorough":
         chk.run_coqchk()
     return chk.finish()
